@@ -2,7 +2,7 @@
 from core import hx, nats, hexlist, exc_kind, safe_check
 
 PROPS = ('GambitV.Props.C01', 'GambitV.C01')
-TIE = [('GambitV.Tie.Kmers', 'GambitV.Tie.Kmers'), ('GambitV.Tie.PyFindKmers', 'GambitV.Tie.Py'), ('GambitV.Tie.PyPropsC01', 'GambitV.Tie.Py'), ('GambitV.Tie.PyCalcSig', 'GambitV.Tie.Py'), ('GambitV.Tie.PyBindKmers', 'GambitV.Tie.Py'), ('GambitV.Tie.PyAccFacts', 'GambitV.Tie.Py')]
+TIE = [('GambitV.Tie.Kmers', 'GambitV.Tie.Kmers'), ('GambitV.Tie.PyFindKmers', 'GambitV.Tie.Py'), ('GambitV.Tie.PyPropsC01', 'GambitV.Tie.Py'), ('GambitV.Tie.PyCalcSig', 'GambitV.Tie.Py'), ('GambitV.Tie.PyBindKmers', 'GambitV.Tie.Py'), ('GambitV.Tie.PyAccFacts', 'GambitV.Tie.Py'), ('GambitV.Tie.PyKmerSpecFacts', 'GambitV.Tie.Py')]
 RULE = ('cases = (k, prefix, list of sequences, input type, accumulator). Streams: corpus; every length 0..|pre|+k+3 over '
         'dense tiny alphabets; random k in 1..32 (array accumulator only for k<=10/12), prefixes of length 1..6 incl. '
         'A, AA, AT, ATAT, ACGT; alphabets {prefix letters only, ACGT, ACGT+N, mixed case, arbitrary bytes}; matches planted '
